@@ -180,6 +180,12 @@ class OrderedMultiDict(dict):
         self.clear()
         self.update_extend(state)
 
+    def __reduce_ex__(self, protocol):
+        # the default reduction of a dict subclass also hands over
+        # self.items(), which copy.copy/deepcopy apply *after* the state,
+        # collapsing every key to its last value
+        return (self.__class__, (), self.__getstate__())
+
     def _clear_ll(self):
         try:
             _map = self._map
